@@ -413,7 +413,8 @@ Print Assumptions gammatone_offset.
 
 Theorem tri_range_rejected :
   forall low high rate : R,
-       low < 0 \/ high <= low \/ high > rate / 2 + 1 -> tri_rejects_some low high rate.
+       low < 0 \/ high <= low \/ rate / 2 <= low \/ high > rate / 2 + 1 ->
+       tri_rejects_some low high rate.
 Proof. exact tri_range_rejected_l. Qed.
 Print Assumptions tri_range_rejected.
 
@@ -424,25 +425,32 @@ Print Assumptions tri_range_rejected_none.
 
 Theorem tri_range_accepted :
   forall low high rate : R,
-       0 <= low -> low < high -> high <= rate / 2 + 1 -> ~ tri_rejects_some low high rate.
+       0 <= low ->
+       low < Rmin high (rate / 2) -> high <= rate / 2 + 1 -> ~ tri_rejects_some low high rate.
 Proof. exact tri_range_accepted_l. Qed.
 Print Assumptions tri_range_accepted.
 
-Theorem tri_effective_high :
+Theorem tri_accepts_iff :
+  forall low high rate : R,
+       ~ tri_rejects_some low high rate <->
+       0 <= low /\ low < Rmin high (rate / 2) /\ high <= rate / 2 + 1.
+Proof. exact tri_accepts_iff_l. Qed.
+Print Assumptions tri_accepts_iff.
+
+Theorem tri_accepted_is_valid :
   forall low high rate : R,
        ~ tri_rejects_some low high rate ->
-       low < rate / 2 ->
        0 <= low /\
        low < tri_high_some high rate /\
        tri_high_some high rate <= rate / 2 /\ tri_high_some high rate <= high.
 Proof. exact tri_effective_high_l. Qed.
-Print Assumptions tri_effective_high.
+Print Assumptions tri_accepted_is_valid.
 
-Theorem tri_effective_high_none :
+Theorem tri_accepted_is_valid_none :
   forall low rate : R,
        ~ tri_rejects_none low rate -> 0 <= low /\ low < tri_high_none rate <= rate / 2.
 Proof. exact tri_effective_high_none_l. Qed.
-Print Assumptions tri_effective_high_none.
+Print Assumptions tri_accepted_is_valid_none.
 
 Theorem other_rejects_same :
   forall low high rate : R,
@@ -482,10 +490,15 @@ Theorem gabor_effective_high_none :
 Proof. exact gabor_effective_high_none_l. Qed.
 Print Assumptions gabor_effective_high_none.
 
-Theorem tri_leeway_admits_inverted_range :
-  exists low high rate : R, ~ tri_rejects_some low high rate /\ tri_high_some high rate < low.
-Proof. exact tri_leeway_admits_inverted_range_l. Qed.
-Print Assumptions tri_leeway_admits_inverted_range.
+Theorem tri_old_test_admitted_inverted_range :
+  exists low high rate : R, ~ tri_old_rejects low high rate /\ Rmin high (rate / 2) < low.
+Proof. exact tri_old_test_admitted_inverted_range_l. Qed.
+Print Assumptions tri_old_test_admitted_inverted_range.
+
+Theorem tri_inverted_range_now_rejected :
+  tri_rejects_some (16001 / 2) (80009 / 10) 16000.
+Proof. exact tri_inverted_range_now_rejected_l. Qed.
+Print Assumptions tri_inverted_range_now_rejected.
 
 Theorem gabor_freq_resp_three_images :
   forall (l2 : bool) (std c lowest highest : R) (width k : Z),
